@@ -20,6 +20,18 @@
      monitor_sound            obligations O1-O4 at every step of a run => the run does not end in a
         VM-level type failure, and a finished run's result inhabits the entry's result type
 
+     core_soundness / core_progress / core_type_safety   for the CORE FRAGMENT of typed/Core.v (an
+        AST-level typing judgement `infer` and evaluator `eval`: literals, tuples, positional
+        field access, the two builtins integer_add / binary_length, bare and type-ascribed
+        binders with nil-narrowing, blocks on a variable with forward and complement narrowing
+        as compile_block implements them after F13 F53 F54 F59 F66 F74 F80 F86 - dead branches
+        contribute nothing, a never complement is not applied -, calls of monomorphic
+        non-dispatching functions): an accepted expression never gets stuck, terminates, and its
+        value is in [[T]].  subty_sound / disj_sound / split_sound: the type relations and the
+        narrowing split the judgement uses are sound for [[.]].  The judgement is tied to the
+        compiler on every run: on generated core programs the extracted `infer` must EQUAL the
+        real compiler's inferred type and the extracted `eval` the real VM's value.
+
    What is NOT proved — the full statement, kept here:
 
      type_soundness : forall (src : source) (P : compiled program) (arg : value),
@@ -30,7 +42,7 @@
                    | _ => True                                 (* not finished: non-termination *)
                    end
 
-     Missing: a model of the compiler's typing judgement (compiler.rs, compiler/{typing,pattern,
+     Missing: a model of the compiler's typing judgement beyond the core fragment (compiler.rs, compiler/{typing,pattern,
      narrowing,spread}.rs — ~10 kLoC of flow-sensitive, provenance-keyed narrowing), i.e. the
      proof that every program it emits satisfies `run_ok` (O1-O4 at every step).  That part is
      DECIDED PER PROGRAM by ./check C01 on the real compiler and VM (vplib/props/c01.py); on the
@@ -39,7 +51,7 @@
      known_findings.json. *)
 From Quiver Require Import Base Types Sem Rel RelProofs Builtins BuiltinWf.
 From Quiver Require vm.Vm.
-From Quiver Require Import typed.Typed typed.BuiltinTyped typed.TypedProofs.
+From Quiver Require Import typed.Typed typed.BuiltinTyped typed.TypedProofs typed.Core typed.CoreProofs.
 From Coq Require Import Arith.
 Close Scope Z_scope.
 Open Scope nat_scope.
@@ -145,3 +157,56 @@ Example C01_run_nonvacuous :
             {| Vm.stack := []; Vm.locals := []; Vm.frames := []; Vm.persistent := false |}) /\
   fn_sig ex_prog 0 = Some (2, 0, 2).
 Proof. vm_compute. split; reflexivity. Qed.
+
+(* ================================================================== the core fragment *)
+Theorem C01_subty_sound : forall s t v, subty s t = true -> memb v s = true -> memb v t = true.
+Proof. exact subty_sound. Qed.
+Print Assumptions C01_subty_sound.
+
+Theorem C01_disj_sound : forall s t v, disj s t = true -> memb v s = true -> memb v t = false.
+Proof. exact disj_sound. Qed.
+Print Assumptions C01_disj_sound.
+
+(* forward narrowing and complement narrowing partition the scrutinee's values as the run-time
+   match does *)
+Theorem C01_split_sound : forall p us m r v rho,
+  split_variants p us = Some (m, r) ->
+  (exists u, In u us /\ memb v u = true) ->
+  match pmatch p v rho with
+  | Some _ => exists u, In u m /\ memb v u = true
+  | None => exists u, In u r /\ memb v u = true
+  end.
+Proof. exact split_sound. Qed.
+Print Assumptions C01_split_sound.
+
+Theorem C01_core_soundness : forall (fns : list fdef) n k G e T rho v,
+  infer fns k G e = Some T -> env_ok rho G -> eval fns n rho e = Some v -> memb v T = true.
+Proof. exact core_soundness. Qed.
+Print Assumptions C01_core_soundness.
+
+Theorem C01_core_progress : forall (fns : list fdef) k G e T rho,
+  infer fns k G e = Some T -> env_ok rho G -> exists v, eval fns k rho e = Some v.
+Proof. exact core_progress. Qed.
+Print Assumptions C01_core_progress.
+
+Theorem C01_core_type_safety : forall (fns : list fdef) k e T,
+  infer fns k [] e = Some T -> exists v, eval fns k [] e = Some v /\ memb v T = true.
+Proof. exact core_type_safety. Qed.
+Print Assumptions C01_core_type_safety.
+
+(* non-vacuity: `f0 = #(A['int] | B) { v1 = $, v1 { | =A[v2] => [v2, 1] __integer_add__ | 7 } }`,
+   `[A[4] f0, B f0, 0xababab __binary_length__]` is accepted at ['int, 'int, 'int] and evaluates
+   to [5, 7, 3]; with the default reading the narrowed variable's field it is rejected *)
+Definition ex_core_fns : list fdef :=
+  [ (TyUnion [TyTup (Some 0) [TyInt]; TyTup (Some 1) []],
+     ELet 1 (EVar 0) (ECase 1 [(PTup (Some 0) [Some 2], EAdd (EVar 2) (EInt 1%Z))] (EInt 7%Z))) ].
+Definition ex_core_main : exp :=
+  ETup None [ECall 0 (ETup (Some 0) [EInt 4%Z]); ECall 0 (ETup (Some 1) []); ELen (EBinLit 3)].
+
+Example C01_core_nonvacuous :
+  infer ex_core_fns 20 [] ex_core_main = Some (TyTup None [TyInt; TyInt; TyInt]) /\
+  eval ex_core_fns 20 [] ex_core_main = Some (CTup None [CInt 5%Z; CInt 7%Z; CInt 3%Z]) /\
+  infer [(TyUnion [TyTup (Some 0) [TyInt]; TyTup (Some 1) []],
+          ELet 1 (EVar 0) (ECase 1 [(PTup (Some 0) [Some 2], EVar 2)] (EGet (EVar 1) 0)))]
+        20 [] (ECall 0 (ETup (Some 1) [])) = None.
+Proof. vm_compute. repeat split; reflexivity. Qed.
